@@ -6,6 +6,7 @@ mod error;
 mod model;
 
 pub use crate::ip::{IPv4, IPv6};
+use crate::PartialResult;
 pub use error::{BinaryParseError, ParseError};
 pub use model::{Addresses, Header, SEPARATOR, TCP4, TCP6, UNKNOWN};
 pub use model::{PROTOCOL_PREFIX, PROTOCOL_SUFFIX};
@@ -28,6 +29,41 @@ const PARTS: usize = 7;
 /// Parses a text PROXY protocol header.
 /// The given string is expected to only include the header and to end in \r\n.
 fn parse_header(header: &str) -> Result<Header, ParseError> {
+    // Once the carriage return is followed by another byte the line is over:
+    // more input cannot complete it, so a result that asks for more input is final.
+    let terminated =
+        matches!(header.find(CARRIAGE_RETURN), Some(index) if index + 1 < header.len());
+
+    parse_line(header).map_err(|error| {
+        if terminated && error.is_incomplete() {
+            terminal(header, error)
+        } else {
+            error
+        }
+    })
+}
+
+/// The terminal counterpart of an error that asks for more input.
+fn terminal(header: &str, error: ParseError) -> ParseError {
+    let invalid_address = || Ipv4Addr::from_str("").unwrap_err();
+
+    match error {
+        ParseError::Partial if header.starts_with(PROTOCOL_PREFIX) => ParseError::InvalidProtocol,
+        ParseError::Partial | ParseError::MissingPrefix => ParseError::InvalidPrefix,
+        ParseError::MissingProtocol => ParseError::InvalidProtocol,
+        ParseError::MissingSourceAddress => ParseError::InvalidSourceAddress(invalid_address()),
+        ParseError::MissingDestinationAddress => {
+            ParseError::InvalidDestinationAddress(invalid_address())
+        }
+        ParseError::MissingSourcePort => ParseError::InvalidSourcePort(None),
+        ParseError::MissingDestinationPort => ParseError::InvalidDestinationPort(None),
+        ParseError::MissingNewLine => ParseError::InvalidSuffix,
+        error => error,
+    }
+}
+
+/// Parses the line of a text PROXY protocol header.
+fn parse_line(header: &str) -> Result<Header, ParseError> {
     if header.is_empty() {
         return Err(ParseError::MissingPrefix);
     } else if header.len() > MAX_LENGTH {
